@@ -134,7 +134,12 @@ class TimePointDumper(object):
                 # We need the year to be in standard calendar years.
                 timepoint = timepoint.to_calendar_date()
 
-        if custom_time_zone is not None:
+        if (custom_time_zone is not None and
+                (timepoint.time_zone.unknown or
+                 (timepoint.time_zone.hours,
+                  timepoint.time_zone.minutes) != custom_time_zone)):
+            # (A point already in this time zone is dumped as it is, so that
+            # e.g. the 24:00 end-of-day form survives the default format.)
             if custom_time_zone == (0, 0):
                 timepoint = timepoint.to_utc()
             else:
